@@ -18,10 +18,11 @@ EXPLANATION = (
     "(AC6) A- and M-parameter groups keep their order, (AC9) differentiable copies are clones, (OPT) option merge; (S) the shifted "
     "system is solve(A, -B, E=evals, M) with B the incoming vector gradient projected with the degeneracy map and M on the left, and the "
     "solution re-projected with M on the right; (M) the M pull-back is gaccumM == -lambda*(g_vals + g_vecs) - 1/2 <gbar, conj(x)> x and "
-    "the A pull-back gaccumA == g_vals + g_vecs (polynomial normal form); (O) the six branches of the projector place M consistently "
-    "(inside the inner product for mright, on the subtracted term otherwise) in the degenerate and non-degenerate forms; (G) the dense "
-    "backward uses F_ij = lambda_j - lambda_i, voids degenerate entries BEFORE inverting, has the form V (F^-1 o (V^H G)) V^H + "
-    "V diag(g) V^H and is symmetrised; (K) the degeneracy map compares |lambda_i - lambda_j| with atol + rtol |lambda| and reports "
+    "the A pull-back gaccumA == g_vals + g_vecs (polynomial normal form); (O) the projector, evaluated as a symbolic tensor term in its six cases (map given or not) x (no M, M right, M left), "
+    "equals the specification A - <B-component of A> with the conjugated B and M inside the inner product (right) or on the subtracted "
+    "component (left); (G) the dense backward, evaluated as a term on its three paths, is 1/2 (R + R^H) with R = V (F^-1 o (V^H G)) V^H "
+    "+ V diag(g) V^H, F_ij = lambda_j - lambda_i and degenerate entries voided BEFORE inverting (re-spellings - .mH, masked_fill, "
+    "reciprocal, @, / 2 - are one term; a term in another vocabulary is undecided, not a violation); (K) the degeneracy map compares |lambda_i - lambda_j| with atol + rtol |lambda| and reports "
     "degeneracy only beyond the diagonal; (D) svd stays on the differentiable path. NOT decided: the values of the gradients.")
 ASSUMPTIONS = ["the formula of arXiv:2011.04366 is the specification of the implicit backward", "solve() solves (A - E M) X = B (C01/C02)"]
 
